@@ -530,6 +530,69 @@ def handshake_case(rng, B):
     B.cases.append(render)
 
 
+def parse_case(rng, B):
+    """the parsers the key learning depends on, fed mostly-valid and malformed input: EAPOL-Key frames whose length
+    fields lie, truncated / extended frames, other descriptor types; beacons whose tagged parameters are cut, run past
+    the end, lack / repeat the SSID, or carry a fourth address"""
+    ssid = rng.choice([b"Coherer", b"", b"x" * 32])
+    psk = b"Induction"
+    pmk = hashlib.pbkdf2_hmac("sha1", psk, ssid, 4096, 32)
+    bssid, sta = rand_bytes(rng, 6), rand_bytes(rng, 6)
+    ops = ["case", f"apdata {hx(psk)} {hx(ssid)} pmk={hx(pmk)}"]
+    # beacons
+    for _ in range(rng.randint(3, 6)):
+        fc1 = rng.choice([0, 0, 0, 3, 1, 2, 0x40])
+        a3 = rng.choice([bssid, rand_bytes(rng, 6)])
+        h = bytes([0x80, fc1, 0, 0]) + b"\xff" * 6 + a3 + a3 + bytes(2) + (rand_bytes(rng, 6) if fc1 & 3 == 3 else b"")
+        fixed = rand_bytes(rng, 12)
+        tags = []
+        for _ in range(rng.randint(0, 4)):
+            tid = rng.choice([0, 0, 1, 3, 48, 221, rng.randrange(256)])
+            data = ssid if tid == 0 and rng.random() < 0.6 else rand_bytes(rng, rng.choice([0, 1, 3, 8, 32, 255]))
+            tags.append(bytes([tid, len(data)]) + data)
+        t = b"".join(tags)
+        k = rng.random()
+        if k < 0.2 and t:
+            t = t[:rng.randrange(len(t))]                         # cut inside an element
+        elif k < 0.3:
+            t += bytes([rng.choice([0, 7])])                      # a lone trailing octet
+        elif k < 0.4:
+            t += bytes([rng.choice([0, 7]), rng.randrange(1, 256)]) + rand_bytes(rng, rng.randrange(0, 3))   # length past the end
+        f = h + fixed + t
+        if rng.random() < 0.15:
+            f = f[:rng.randrange(10, len(h) + 13)]
+        ops.append(f"wpa {hx(f)}")
+    # EAPOL-Key frames
+    att = Attempt(rng, bssid, sta, pmk, rng.random() < 0.6, qos=rng.random() < 0.3)
+    for _ in range(rng.randint(4, 8)):
+        n = rng.choice([1, 2, 3, 4])
+        fr = att.msg(n)
+        hl = 24 + (2 if att.sub else 0) + 8
+        hdr, e = fr[:hl], bytearray(fr[hl:])
+        true_len = len(e) - 4
+        kdl = int.from_bytes(e[97:99], "big")
+        k = rng.random()
+        if k < 0.25:
+            e[2:4] = rng.choice([0, 1, 90, 94, 95, max(0, true_len - 1), true_len + 1, 0xffff]).to_bytes(2, "big")
+        elif k < 0.45:
+            e[97:99] = rng.choice([0, max(0, kdl - 1), kdl + 1, 0xffff]).to_bytes(2, "big")
+        elif k < 0.6:
+            e = e[:rng.randrange(len(e))]
+        elif k < 0.7:
+            extra = rand_bytes(rng, rng.randint(1, 9))
+            if rng.random() < 0.5:
+                e[2:4] = (true_len + len(extra)).to_bytes(2, "big")      # inside the EAPOL length: a trailing RawPDU
+            e += extra
+        elif k < 0.8:
+            e[4] = rng.choice([0, 3, 254, 2, 255])
+        elif k < 0.85:
+            e[1] = rng.choice([0, 1, 4])
+        elif k < 0.92:
+            e[5] ^= 1 << rng.randrange(8); e[6] ^= rng.choice([0x08, 0x40, 0x80, 0x07])     # key information bits
+        ops.append(f"wpa {hx(hdr + bytes(e))}")
+    B.cases.append(lambda bodies: ops)
+
+
 def regression_case(rng, B):
     """one deterministic trigger per defect fixed in libtins (KF-C09-1,2,3,5,6), so that a regression is seen at every seed"""
     bssid, staX, staY = [rand_bytes(rng, 6) for _ in range(3)]
@@ -644,6 +707,8 @@ def gen_ops(rng, tier, exe):
     hostile_case(rng, B, list(range(0, 40)), False, wep=True)
     for i in range(140 if quick else 3500):
         handshake_case(rng, B)
+    for i in range(40 if quick else 1000):
+        parse_case(rng, B)
     for i in range(2 if quick else 20):
         michael_case(rng, B)
     for i in range(3 if quick else 60):
